@@ -186,3 +186,116 @@ def s07l_latch_seeding(ctx):
                     r.sample({'type': short, 'latch': fld, 'accessor': acc}, cap=30)
     r.floor('latches with a decided seed', 6, n)
     return r
+
+
+def _canon_pure(t, in_args, ctor, depth=0):
+    """canonical form of a value tree that is a pure function of the input and of the configuration; None when it reads other state.
+    In a constructor `self` is the configuration itself; in a step function the configuration is `self.cfg`."""
+    t = _strip(t)
+    if not isinstance(t, tuple) or not t or depth > 30:
+        return None if depth > 30 else t
+    k = t[0]
+    if k == 'arg':
+        if t[1] in in_args:
+            return ('IN',)
+        return ('CFG',) if ctor else ('SELF',)
+    if k == 'const':
+        return ('const', t[2] if len(t) > 2 else None)
+    if k == 'field':
+        b = _canon_pure(t[1], in_args, ctor, depth + 1)
+        if b is None:
+            return None
+        if b == ('SELF',):
+            return ('CFG',) if t[2] == 'cfg' else None
+        if b and b[0] == 'CFG':
+            return b + (t[2],)
+        return ('field', b, t[2])
+    if k == 'call':
+        nm = t[4]
+        if nm.endswith('::clone') and len(t[2]) == 1:
+            return _canon_pure(t[2][0], in_args, ctor, depth + 1)
+        args = [_canon_pure(a, in_args, ctor, depth + 1) for a in t[2]]
+        if any(a is None for a in args):
+            return None
+        if 'OHLCV' in nm or 'ohlcv' in nm:
+            nm = 'OHLCV::' + nm.rsplit('::', 1)[-1]
+        return ('call', nm, tuple(args))
+    if k == 'bin':
+        a, b = _canon_pure(t[2], in_args, ctor, depth + 1), _canon_pure(t[3], in_args, ctor, depth + 1)
+        return None if a is None or b is None else ('bin', t[1], a, b)
+    if k == 'un':
+        a = _canon_pure(t[2], in_args, ctor, depth + 1)
+        return None if a is None else ('un', t[1], a)
+    if k == 'cast':
+        a = _canon_pure(t[2], in_args, ctor, depth + 1)
+        return None if a is None else ('cast', a, t[4] if len(t) > 4 else None)
+    if k == 'agg':
+        args = [_canon_pure(a, in_args, ctor, depth + 1) for a in t[3]]
+        return None if any(a is None for a in args) else ('agg', t[2], tuple(args))
+    return None
+
+
+def _mentions_self(c):
+    return c is None or any(isinstance(x, tuple) and x and x[0] == 'SELF' for x in walk_tree(c))
+
+
+def s07p_pure_feed_seeding(ctx):
+    """C08: a component (a Window, an inner method, a configurable moving average) that next() feeds, on every call, one pure function
+    g(input, configuration) of the current input must be seeded by new() / init() with g(construction value, configuration): then the
+    construction value is exactly what the component would have seen before the stream began."""
+    f = ctx.facts('default')
+    m = Model(f)
+    r = RuleResult('S07p', 'a component fed a pure function of the current input on every step is seeded with the same function of the construction value')
+    cfg_of = m.config_of_instance_adt()
+    n_ok = 0
+    for short, p, body, tr in r_counters.step_functions(m):
+        fed = {}
+        for bi, t in body.calls():
+            if t['callee'].get('name') in ('next', 'push') and len(t['args']) == 2:
+                recv = _strip(body.tree_of_operand(t['args'][0]))
+                if recv[0] == 'field' and _strip(recv[1])[0] == 'arg' and _strip(recv[1])[1] == 1:
+                    fed.setdefault(recv[2], []).append(_canon_pure(body.tree_of_operand(t['args'][1]), (2,), False))
+        if not fed:
+            continue
+        if tr == 'Method':
+            impl = next((i for i in m.method_impls if m.adt_path_of_impl(i) == p), None)
+            cpath = m.impl_fn_path(impl, 'new') if impl else None
+        else:
+            ci = cfg_of.get(p)
+            cpath = m.impl_fn_path(ci, 'init') if ci else None
+        cb = m.body_inlined(cpath, prefer_mono=False) if cpath else None
+        if cb is None:
+            continue
+        for bj, si, s in cb.stmts():
+            if not (s['s'] == 'assign' and s['rv']['r'] == 'agg' and s['rv'].get('kind') == 'adt' and s['rv'].get('def') == p):
+                continue
+            lit = cb.tree_of_rvalue(s['rv'])
+            for fld, cs in sorted(fed.items()):
+                if fld not in (lit[4] or ()):
+                    continue
+                if len({str(c) for c in cs}) != 1 or _mentions_self(cs[0]):
+                    continue            # fed a value that depends on other state, or different values on different calls: not decided here
+                seedt = _strip(lit[3][list(lit[4]).index(fld)])
+                sv = None
+                for x in walk_tree(seedt):
+                    if isinstance(x, tuple) and x and x[0] == 'call' and x[4].rsplit('::', 1)[-1] in ('new', 'init') and len(x[2]) == 2:
+                        sv = x[2][1]
+                        break
+                if sv is None:
+                    continue
+                sc = _canon_pure(sv, (2,), True)
+                key = '%s|%s' % (short, fld)
+                r.inst(key)
+                if sc == cs[0]:
+                    n_ok += 1
+                    continue
+                if sc is None:
+                    r.undecided.append('%s.%s: the seed is not a pure function of the construction value (%s)' % (short, fld, tree_str(sv)[:50]))
+                    continue
+                r.violate(key + '|seed-differs', '%s feeds `%s` the value %s on every step but the constructor seeds it with %s: before the stream began the component saw '
+                          'something else than the construction value would have given it' % (short, fld, tree_str(_strip(body.tree_of_operand(
+                              next(t['args'][1] for bi, t in body.calls() if t['callee'].get('name') in ('next', 'push') and len(t['args']) == 2 and
+                                   _strip(body.tree_of_operand(t['args'][0]))[0] == 'field' and _strip(body.tree_of_operand(t['args'][0]))[2] == fld))))[:60],
+                              tree_str(sv)[:60]), cb.file, s['sp']['l'])
+    r.floor('components seeded with the function they are fed', 70, n_ok)
+    return r
